@@ -868,6 +868,8 @@ def run_c12(tier, replay):
     dumps = [(4, 'Racers_all')] if tier == 'thorough' else [(4, 'Racers_none'), (2, 'Racers_all')]
     # (CtxTerm, DupTerm, ParentKill): proposed; as written; the tree after the committed fixes; one fix at a time
     variants = (('TRUE', 'TRUE', 'TRUE'), ('FALSE', 'FALSE', 'FALSE'), ('TRUE', 'FALSE', 'TRUE'), ('TRUE', 'FALSE', 'FALSE'), ('FALSE', 'TRUE', 'TRUE'))
+    if tier == 'quick':
+        variants = variants[:2]
     for mk, rc in dumps:
         for ct, dt, pk in variants:
             jobs.start('p%d%s%s%s%s' % (mk, rc, ct, dt, pk), lambda mk=mk, rc=rc, ct=ct, dt=dt, pk=pk: tlc.run(
